@@ -29,6 +29,7 @@ FONT_BASE = 3            # fonts F1..F4 are objects 3..6 in every document
 PAGE_BASE = 10           # page i: contents 10+3i (and 11+3i), page object 12+3i
 AUX_BASE = 40            # font k aux objects 40+10k ..
 FORM_BASE = 100          # form XObjects 100, 101, ...
+DAMAGED = 149            # a Flate stream cut short (tolerated: what can be inflated is used)
 DANG_A, DANG_B = 150, 151  # references that resolve to nothing: no xref entry / compressed entry past the stream's /N
 
 BASE_ENCODINGS = ["StandardEncoding", "MacRomanEncoding", "WinAnsiEncoding", "PDFDocEncoding"]
@@ -790,6 +791,10 @@ def gen_doc(rng, idx: int, plan: Optional[Plan] = None) -> Doc:
         page: Dict[str, Any] = {"Type": "Page", "Parent": Ref(PAGES), "MediaBox": [0, 0, 612, 792]}
         if rng.random() < 0.2:
             page["Rotate"] = rng.choice([90, 180, 270])
+        elif rng.random() < 0.3:
+            page["Rotate"] = Ref(DANG_B if form == "objstm" else DANG_A)     # resolves to nothing: 0
+            walk.append(page["Rotate"].n)
+            d.features.append("dangling:rotate")
         def cstream(data: bytes) -> Stream:
             if flate:
                 return Stream({"Filter": "FlateDecode"}, zlib.compress(data))
@@ -803,6 +808,14 @@ def gen_doc(rng, idx: int, plan: Optional[Plan] = None) -> Doc:
             if rng.random() < 0.5:
                 refs.insert(0, Ref(DANG_A))         # a /Contents element that refers to nothing
                 d.features.append("dangling:contents")
+            if rng.random() < 0.5:
+                # a damaged (truncated Flate) content stream shared by the pages: decoded on the first
+                # use (error path), the cached stream object is used again by later pages
+                if DAMAGED not in objs:
+                    z = zlib.compress(b"% damaged stream\n0.7 g\n" * 30)
+                    objs[DAMAGED] = Stream({"Filter": "FlateDecode"}, z[:len(z) - 7])
+                refs.insert(0, Ref(DAMAGED))
+                d.features.append("damaged:contents")
             for j, part in enumerate(parts):
                 objs[cnum + j] = cstream(part)
                 refs.append(Ref(cnum + j))
